@@ -295,6 +295,8 @@ def strFill (bytes : List Nat) (w : Nat) : List Init → Nat → Nat → Except 
 /-- `string_initializer`; `elem` = `init->ty->base` -/
 def stringInitializer (elem : Ty) (bytes : List Nat) (esz : Nat) (rest : List ITok) (init : Init) :
     Except Fail (Init × List ITok) :=
+  -- `if (init->ty->base->size != tok->ty->base->size) error_tok(...)`
+  if elem.size ≠ (esz : Int) then .error (.diag "array of inappropriate type initialized from string constant") else
   let tokLen := bytes.length / esz                 -- tok->ty->array_len
   let init := match init with
     | .flex => newInit (.array elem tokLen) false
